@@ -507,17 +507,17 @@ func init() {
 	register(&checkSpec{
 		ID:    "C01",
 		Level: "translation_validation",
-		Rule:  "programs = the 16 Go functions of harness/tv/c01/prog.gotmpl (integer/bit arithmetic, strings and slicing, slices with aliasing/append/copy, maps, value and pointer methods, closures capturing and mutating loop variables, defer order with arguments, recover from index/division panics, switch with fallthrough, labelled break/continue, goto, tuple assignment order, shadowing, variadics, named results modified by defer, interfaces and type switches); the same text is compiled by the XGo compiler of the current tree and taken as plain Go; inputs = integer/string arguments as SMT variables; results, panics and traces of the two versions are compared by symbolic execution",
+		Rule:  "programs = the 22 Go functions of harness/tv/c01/prog.gotmpl (switch clauses consisting only of fallthrough, empty clauses, default in the middle, switch init statements, condition-only loops, continue/break inside switch inside for, range over strings, if/else chains with init statements, struct copies and comparison, embedded fields, arrays of structs, iota and typed constants, package-level initialisation order, integer/bit arithmetic, strings and slicing, slices with aliasing/append/copy, maps, value and pointer methods, closures capturing and mutating loop variables, defer order with arguments, recover from index/division panics, switch with fallthrough, labelled break/continue, goto, tuple assignment order, shadowing, variadics, named results modified by defer, interfaces and type switches); the same text is compiled by the XGo compiler of the current tree and taken as plain Go; inputs = integer/string arguments as SMT variables; results, panics and traces of the two versions are compared by symbolic execution",
 		Assumptions: []string{
 			"translation validation of the listed Go functions, not of every Go program; the reference is the same source executed by the engine as Go (not a binary built by the Go toolchain); println/stdout and exit status are not exercised",
 			"bound: |ints| <= 40, loop bounds <= 5, strings <= 2 bytes",
 		},
 		Prepare: func(tier string) error { _, err := prepareTV("C01"); return err },
-		Extra:   func(tier string, ev map[string]any) []Violation { ev["programs"] = 16; return nil },
+		Extra:   func(tier string, ev map[string]any) []Violation { ev["programs"] = 22; return nil },
 		Harnesses: []harnessSpec{
-			{Name: "VxC01", ExtDir: tvDir("C01"), Quick: map[string]int{}, Variants: func() []map[string]int {
+			{Name: "VxC01", ExtDir: tvDir("C01"), Quick: map[string]int{"KF_INITORDER": 0}, Variants: func() []map[string]int {
 				var v []map[string]int
-				for fn := 0; fn <= 15; fn++ {
+				for fn := 0; fn <= 21; fn++ {
 					v = append(v, map[string]int{"FN": fn})
 				}
 				return v
@@ -529,15 +529,15 @@ func init() {
 	register(&checkSpec{
 		ID:    "C11",
 		Level: "translation_validation",
-		Rule:  "programs = the class file harness/tv/c11/cls/Counter.gox (var block with int, string, slice and map fields; six methods with parameters, results, field reads/writes, this.Method and bare method calls) plus three driver functions in main.xgo, compiled as one package by the compiler of the current tree; inputs = method arguments and initial field values as SMT variables; compared with the explicit struct + pointer-receiver methods; the exact field list and method set are checked statically when the generated package is type-checked",
+		Rule:  "programs = the class files harness/tv/c11/cls/Counter.gox (var block with int, string, slice and map fields; six methods with parameters, results, field reads/writes, this.Method and bare method calls) and Gauge.gox (import, const and type declarations before the var block; named-type, array and self-pointer fields; package function call) plus five driver functions in main.xgo, compiled as one package by the compiler of the current tree; inputs = method arguments and initial field values as SMT variables; compared with the explicit struct + pointer-receiver methods; the exact field list and method set are checked statically when the generated package is type-checked",
 		Assumptions: []string{
 			"translation validation of this class, not of every class; field types int, string, []int, map[int]bool",
 			"'exactly those fields and methods': unkeyed composite literal and interface satisfaction in the generated package (go/types at load time), not a reflective enumeration: extra methods would go unnoticed",
 		},
 		Prepare: func(tier string) error { _, err := prepareTV("C11"); return err },
-		Extra:   func(tier string, ev map[string]any) []Violation { ev["programs"] = 4; return nil },
+		Extra:   func(tier string, ev map[string]any) []Violation { ev["programs"] = 7; return nil },
 		Harnesses: []harnessSpec{
-			{Name: "VxC11", ExtDir: tvDir("C11"), Quick: map[string]int{}, Variants: []map[string]int{{"FN": 0}, {"FN": 1}, {"FN": 2}, {"FN": 3}}, MaxSteps: 500_000},
+			{Name: "VxC11", ExtDir: tvDir("C11"), Quick: map[string]int{}, Variants: []map[string]int{{"FN": 0}, {"FN": 1}, {"FN": 2}, {"FN": 3}, {"FN": 4}, {"FN": 5}}, MaxSteps: 500_000},
 		},
 	})
 
